@@ -1,8 +1,10 @@
 (* Properties/C14.v -- index.rst toctrees are closed and complete.
    Only theorem statements; proofs are in Proofs/WalkFacts.v, WalkFacts2.v. *)
-From Coq Require Import String List Permutation.
+From Coq Require Import String List Permutation NArith.
 From CMinx Require Import Base.Str Model.Writer Model.Naming Model.Pipeline Model.Walk
-     Gen.SourceLiterals Proofs.WalkFacts Proofs.WalkFacts2 Proofs.LiteralsMatch.
+     Gen.SourceLiterals Proofs.WalkFacts Proofs.WalkFacts2 Proofs.LiteralsMatch
+     Base.PyWalkSem Proofs.WalkSourceMatch.
+From CMinx Require Gen.PyWalkSource.
 Import ListNotations.
 
 (* the index of a processed directory is one toctree over the sorted kept sub-directories
@@ -76,3 +78,15 @@ Theorem C14_source_literals_pinned :
   /\ geti (s"document") init_ints = [1; 2; 1].
 Proof. exact document_literals. Qed.
 Print Assumptions C14_source_literals_pinned.
+
+(* pywalk2coq: document() as regenerated from src/cminx/__init__.py on every run (os.walk loop with
+   in-place pruning, for/else, break/continue, rebinding by sorted, index construction, per-file
+   loop), run on an abstract world, produces exactly the action list of the model.  names_distinct
+   (no two sibling directories / files with one name) holds of every real directory. *)
+Theorem C14_document_matches_source :
+  forall st hdrs docfn excl follow base kind input_file,
+    kind_distinct kind = true ->
+    PyWalkSource.document (PyWorld base kind) docfn [] input_file (py_settings_of st hdrs excl follow)
+    = Walk.document st hdrs docfn excl base kind.
+Proof. exact document_matches_source. Qed.
+Print Assumptions C14_document_matches_source.
